@@ -10,7 +10,7 @@ from props import segrefit
 from props import shapeparse as SP
 from vlib import common as C
 
-LEAN_MODULES = ["NiflyVerif.Props.C09", "NiflyVerif.Props.SegRefit"]
+LEAN_MODULES = ["NiflyVerif.Props.C09", "NiflyVerif.Props.SegRefit", "NiflyVerif.Props.PartDelete"]
 ASSUMPTIONS = ["strip-based shapes are exempt from the exact triangle statement (as the property says); their indices must stay in range",
                "float attributes are opaque payload compared by bit pattern"]
 TRI_LIST_TYPES = {"NiTriShape", "BSTriShape", "BSSubIndexTriShape", "BSMeshLODTriShape", "BSDynamicTriShape", "BSSegmentedTriShape", "BSLODTriShape"}
@@ -226,7 +226,7 @@ def run(ctx):
             lines.append(f"c09.run mesh:sse:5:6:77:n 0 {','.join(map(str, sub))} reload")
             lines.append(f"c09.run mesh:sk:5:6:77:n 0 {','.join(map(str, sub))} reload")
     out = C.run_lines_parallel(ctx.harness, lines, timeout=3000)
-    bad, mlines, mmeta = [], [], []
+    bad, mlines, mmeta, plines, pmeta = [], [], [], [], []
     nontrivial = 0
     for line, o in zip(lines, out):
         if o in ("load-failed", "no-such-shape", "no-shape"):
@@ -240,11 +240,27 @@ def run(ctx):
         ok = True
         k = 1
         for D in idxs:
+            if k >= len(parts) or " " not in parts[k]:
+                bad.append((line, "the deletion produced no observation: " + " | ".join(x[:60] for x in parts[1:])))
+                ok = False
+                break
             A = SP.parse(parts[k].split(" ", 1)[1])
             why = check_delete(B, A, D)
             if B["type"] in TRI_LIST_TYPES and B["STRIPS"] is None and len(B["T"]) <= 20000:
                 mlines.append("c09.delete %d %s %s" % (B["nv"], ",".join("%d.%d.%d" % t for t in B["T"]) or "-", ",".join(map(str, D))))
                 mmeta.append((line, B, A))
+            # skin partitions: the model of NiSkinPartition::notifyVerticesDelete (Mesh/PartDelete.lean) predicts vertex map,
+            # surviving per-vertex entries and triangles of every partition that held a vertex map and a triangle list
+            PB, PA = B["PARTS"], A["PARTS"]
+            if PB and PA and len(PB["parts"]) == len(PA["parts"]) and all(q["vertexMap"] and q["triangles"] and q["numStrips"] == 0 for q in PB["parts"]):
+                mx = max(max(q["vertexMap"]) for q in PB["parts"])
+                if not PB["mapped"]:
+                    mx = max([mx] + [x for q in PB["parts"] for t in q["triangles"] for x in t])
+                if mx + 1 < 65536:
+                    for pk, (qb, qa) in enumerate(zip(PB["parts"], PA["parts"])):
+                        plines.append("c09.part %d %d %s %s %s" % (1 if PB["mapped"] else 0, mx + 1, ",".join(map(str, D)), ",".join(map(str, qb["vertexMap"])),
+                                                                  ",".join("%d.%d.%d" % t for t in qb["triangles"])))
+                        pmeta.append((line, pk, qb, qa))
             if why:
                 bad.append((line, f"deleting {D[:8]}{'...' if len(D) > 8 else ''} from {B['type']} with {B['nv']} vertices: " + "; ".join(why[:3])))
                 ok = False
@@ -280,8 +296,33 @@ def run(ctx):
             ps = [] if sv == "-" else [int(x) for x in sv.split(",")]
             if pt != A["T"] or (B["V"] is not None and A["V"] != [B["V"][i] for i in ps]):
                 mism.append((line, f"model predicts {len(ps)} survivors / {len(pt)} triangles, implementation has {A['nv']} / {len(A['T'])}"))
+    pmism = []
+    if ctx.driver and plines:
+        pred = C.run_lines_parallel(ctx.driver, plines)
+        for (line, k, qb, qa), pr in zip(pmeta, pred):
+            f = pr.split(" ")
+            if len(f) != 3:
+                pmism.append((line, f"partition {k}: the model answered {pr[:80]}"))
+                continue
+            ints = lambda x: [] if x == "-" else [int(y) for y in x.split(",")]
+            vm, keep = ints(f[0]), ints(f[1])
+            tr = [] if f[2] == "-" else [tuple(int(y) for y in t.split(".")) for t in f[2].split(",")]
+            why = None
+            if qa["vertexMap"] != vm:
+                why = f"vertex map {qa['vertexMap'][:12]} where the model has {vm[:12]}"
+            elif qa["triangles"] != tr:
+                why = f"{len(qa['triangles'])} triangles {qa['triangles'][:4]} where the model has {len(tr)} {tr[:4]}"
+            elif len(qb["weights"]) == len(qb["vertexMap"]) and qa["weights"] != [qb["weights"][i] for i in keep]:
+                why = "vertex weights are not those of the surviving partition vertices"
+            elif len(qb["boneIndices"]) == len(qb["vertexMap"]) and qa["boneIndices"] != [qb["boneIndices"][i] for i in keep]:
+                why = "bone indices are not those of the surviving partition vertices"
+            if why:
+                pmism.append((line, f"partition {k}: " + why))
     for j, (line, why) in enumerate(sorted(bad, key=lambda b: len(b[0]))[:3]):
         res.violation(f"oracle-{j}", dict(what=why, line=line))
+    if pmism and not bad:
+        res.violation("correspondence-partition", dict(what="correspondence Mesh/PartDelete.lean <-> NiSkinPartition::notifyVerticesDelete no longer checks: " + pmism[0][1],
+                                                       broken="correspondence c09 deletePart", line=pmism[0][0], mismatches=len(pmism)), no_input=True)
     if mism and not bad:
         res.violation("correspondence", dict(what="correspondence Mesh/Delete.lean <-> notifyVerticesDelete no longer checks: " + mism[0][1],
                                              broken="correspondence c09 deleteVerts", line=mism[0][0], mismatches=len(mism)), no_input=True)
@@ -297,5 +338,6 @@ def run(ctx):
              "meshes with 2..6 skin partitions (bone-limit splits for OB/FO3/SSE, explicit partitions for FO3/LE/SSE) × index sets "
              "{first, last, prefix, suffix, few random, half random, all} + a second deletion + every subset of a 5-vertex mesh; each "
              "followed by save and reload. non-trivial = deletions that removed some but not all vertices and left triangles",
-        exhaustive=True, model_vs_impl_mismatches=len(mism), oracle_failures=len(bad),
+        exhaustive=True, model_vs_impl_mismatches=len(mism), oracle_failures=len(bad), partitions_predicted=len(plines),
+        partition_mismatches=len(pmism),
         samples=[l[:160] for l in lines[:: max(1, len(lines) // 5)]][:5])
